@@ -25,7 +25,7 @@ type condQ interface {
 	// non-blocking calls: result as cOut
 	Call(op int, x int64) cOut
 	// the retrying variant of an add (AddReqAnyway / AddAnyway / AddCtrlAnyway); ok=false: the type has none
-	CallAnyway(op int, x int64) (cOut, bool)
+	CallAnyway(op int, x int64, ts time.Duration) (cOut, bool)
 	// WaitClose(ctx) where the type has it
 	WaitClose(ctx context.Context) (error, bool)
 	Pop(anyway bool) cRes
@@ -122,11 +122,11 @@ const anywaySleep = 20 * time.Microsecond
 
 type qQ struct{ q *q.Q }
 
-func (a qQ) CallAnyway(op int, x int64) (cOut, bool) {
+func (a qQ) CallAnyway(op int, x int64, ts time.Duration) (cOut, bool) {
 	if op != lAdd {
 		return cOut{}, false
 	}
-	return addOut(a.q.AddReqAnyway(valOf(x), anywaySleep), q.ErrClosed, q.ErrReqQFull), true
+	return addOut(a.q.AddReqAnyway(valOf(x), ts), q.ErrClosed, q.ErrReqQFull), true
 }
 func (a qQ) WaitClose(ctx context.Context) (error, bool) { return nil, false }
 
@@ -157,11 +157,11 @@ func (a qQ) IsClosed() (bool, bool) { return false, false }
 
 type asyncQ struct{ q *async.Q }
 
-func (a asyncQ) CallAnyway(op int, x int64) (cOut, bool) {
+func (a asyncQ) CallAnyway(op int, x int64, ts time.Duration) (cOut, bool) {
 	if op != lAdd {
 		return cOut{}, false
 	}
-	return addOut(a.q.AddAnyway(valOf(x), anywaySleep), async.ErrClosed, async.ErrFull), true
+	return addOut(a.q.AddAnyway(valOf(x), ts), async.ErrClosed, async.ErrFull), true
 }
 func (a asyncQ) WaitClose(ctx context.Context) (error, bool) { return nil, false }
 
@@ -192,11 +192,11 @@ func (a asyncQ) IsClosed() (bool, bool) { return a.q.IsClosed(), true }
 
 type muxQ struct{ q *mux.Q }
 
-func (a muxQ) CallAnyway(op int, x int64) (cOut, bool) {
+func (a muxQ) CallAnyway(op int, x int64, ts time.Duration) (cOut, bool) {
 	if op != lAdd {
 		return cOut{}, false
 	}
-	return addOut(a.q.AddReqAnyway(valOf(x), anywaySleep), mux.ErrClosed, mux.ErrQFull), true
+	return addOut(a.q.AddReqAnyway(valOf(x), ts), mux.ErrClosed, mux.ErrQFull), true
 }
 func (a muxQ) WaitClose(ctx context.Context) (error, bool) { return a.q.WaitClose(ctx), true }
 
@@ -227,12 +227,12 @@ func (a muxQ) IsClosed() (bool, bool) { return a.q.IsClosed(), true }
 
 type mqQ struct{ q *mq.MQ }
 
-func (a mqQ) CallAnyway(op int, x int64) (cOut, bool) {
+func (a mqQ) CallAnyway(op int, x int64, ts time.Duration) (cOut, bool) {
 	switch op {
 	case lAdd:
-		return addOut(a.q.AddReqAnyway(valOf(x), anywaySleep), mq.ErrClosed, mq.ErrReqQFull), true
+		return addOut(a.q.AddReqAnyway(valOf(x), ts), mq.ErrClosed, mq.ErrReqQFull), true
 	case lAddCtrl:
-		return addOut(a.q.AddCtrlAnyway(valOf(x), anywaySleep), mq.ErrClosed, mq.ErrCtrlQFull), true
+		return addOut(a.q.AddCtrlAnyway(valOf(x), ts), mq.ErrClosed, mq.ErrCtrlQFull), true
 	}
 	return cOut{}, false
 }
@@ -273,8 +273,8 @@ func (a mqQ) IsClosed() (bool, bool) { return a.q.IsClosed(), true }
 
 type syncQ struct{ q *syncq.SyncQueue }
 
-func (a syncQ) CallAnyway(op int, x int64) (cOut, bool)         { return cOut{}, false }
-func (a syncQ) WaitClose(ctx context.Context) (error, bool) { return nil, false }
+func (a syncQ) CallAnyway(op int, x int64, ts time.Duration) (cOut, bool) { return cOut{}, false }
+func (a syncQ) WaitClose(ctx context.Context) (error, bool)               { return nil, false }
 
 func (a syncQ) Name() string  { return "syncq.SyncQueue" }
 func (a syncQ) Frame() string { return "github.com/pinealctx/neptune/queue/syncq." }
@@ -372,7 +372,9 @@ type cConsumer struct {
 const stuckBound = 10 * time.Second
 
 // guarded runs f in its own goroutine and reports whether it returned within the bound
-func guarded(f func()) bool {
+func guarded(f func()) bool { return guardedFor(stuckBound, f) }
+
+func guardedFor(bound time.Duration, f func()) bool {
 	done := make(chan struct{})
 	go func() {
 		defer close(done)
@@ -381,7 +383,7 @@ func guarded(f func()) bool {
 	select {
 	case <-done:
 		return true
-	case <-time.After(stuckBound):
+	case <-time.After(bound):
 		return false
 	}
 }
@@ -446,22 +448,22 @@ func (r *condRun) exec(b cBatch) *cObs {
 	r.sc.Batches = append(r.sc.Batches, b)
 	{
 		launchConsumers := func() {
-		for _, la := range b.Launches {
-			c := &cConsumer{t: la.T, done: make(chan struct{})}
-			consumers[la.T] = c
-			gidCh := make(chan int64, 1)
-			go func(c *cConsumer, anyway bool) {
-				gidCh <- curGoid()
-				defer close(c.done)
-				defer func() {
-					if r := recover(); r != nil {
-						c.res = cRes{K: 2}
-					}
-				}()
-				c.res = qu.Pop(anyway)
-			}(c, la.A)
-			c.gid = <-gidCh
-		}
+			for _, la := range b.Launches {
+				c := &cConsumer{t: la.T, done: make(chan struct{})}
+				consumers[la.T] = c
+				gidCh := make(chan int64, 1)
+				go func(c *cConsumer, anyway bool) {
+					gidCh <- curGoid()
+					defer close(c.done)
+					defer func() {
+						if r := recover(); r != nil {
+							c.res = cRes{K: 2}
+						}
+					}()
+					c.res = qu.Pop(anyway)
+				}(c, la.A)
+				c.gid = <-gidCh
+			}
 		}
 		if !b.LanesFirst {
 			launchConsumers()
@@ -481,7 +483,11 @@ func (r *condRun) exec(b cBatch) *cObs {
 							}
 						}()
 						if op.Anyway {
-							if out, ok := qu.CallAnyway(op.Op, op.X); ok {
+							ts := anywaySleep
+							if op.SleepUs > 0 {
+								ts = time.Duration(op.SleepUs) * time.Microsecond
+							}
+							if out, ok := qu.CallAnyway(op.Op, op.X, ts); ok {
 								op.Out = out
 								return
 							}
